@@ -20,6 +20,7 @@ from __future__ import annotations
 
 import hashlib
 import itertools
+import math
 import random
 import traceback
 from concurrent.futures import ProcessPoolExecutor
@@ -27,6 +28,7 @@ from concurrent.futures import ProcessPoolExecutor
 import numpy
 
 from . import _matrix_frames as mf
+from ._matrix_report import emit_round_robin
 
 MAX_WITNESS_PER_CLASS = 5
 TYPES = ("num", "cat1", "cat2", "cat3")
@@ -160,10 +162,25 @@ def _canon(names, X):
 
 
 # --------------------------------------------------------------------------- one build
+_TERM_OBJECTS = {}
+
+
+def _term_object(text):
+    """Parse one term string once per process ('1' is the intercept term)."""
+    import formulaic
+
+    if text not in _TERM_OBJECTS:
+        parsed = list(formulaic.Formula([text], _ordering="none"))
+        if len(parsed) != 1:
+            raise AssertionError(f"{text!r} does not parse to exactly one term: {parsed}")
+        _TERM_OBJECTS[text] = parsed[0]
+    return _TERM_OBJECTS[text]
+
+
 def _build(term_strings, df, rank, cluster_by):
     import formulaic
 
-    f = formulaic.Formula(list(term_strings), _ordering="none")
+    f = formulaic.Formula([_term_object(t) for t in term_strings], _ordering="none")
     kw = {"cluster_by": cluster_by} if cluster_by != "none" else {}
     mm = formulaic.model_matrix(f, df, ensure_full_rank=rank, output="numpy", **kw)
     names = list(mm.model_spec.column_names)
@@ -288,8 +305,15 @@ _RANKERS = {}
 
 def _scope(ctx, b, units, exact, label):
     totals, collected, notes = {}, [], []
+    # most expensive units first (permutations x rows), small chunks: keeps the 16 workers evenly loaded
+    def cost(u):
+        nperm = u[8] if u[8] else math.factorial(len(u[1]))
+        cells = math.prod(int(t[3]) for t in u[0] if t != "num")
+        return -(nperm * len(u[7]) * _replicates(u[0]) * cells)
+
+    units = sorted(units, key=cost)
     with ProcessPoolExecutor(16) as ex:
-        for n_eval, keys, samples, failures in ex.map(_unit, units, chunksize=8):
+        for n_eval, keys, samples, failures in ex.map(_unit, units, chunksize=4):
             b.add_counts(n_eval, keys, samples[:1] if len(b.samples) < 6 else ())
             for f in failures:
                 if f[0] == "NOTE":
@@ -298,20 +322,19 @@ def _scope(ctx, b, units, exact, label):
                 totals[(f[0], f[1])] = totals.get((f[0], f[1]), 0) + 1
                 collected.append(f)
     collected.sort(key=lambda f: (len(f[4]), sum(len(t) for t in f[4]), f[3], f[4]))
-    reported = {}
+    per_class, out = {}, []
     for clause, cls, detail, types, tlist, which, key in collected:
         k = (clause, cls)
-        reported[k] = reported.get(k, 0) + 1
-        if reported[k] > MAX_WITNESS_PER_CLASS:
+        per_class[k] = per_class.get(k, 0) + 1
+        if per_class[k] > MAX_WITNESS_PER_CLASS:
             continue
         contrast, cluster_by = key[2], key[3]
         spec = _frames_for(types, ctx.seed, True)[which][0]
         code = WITNESS.format(frame=mf.frame_code(spec), terms=list(tlist),
                               kw=({"cluster_by": cluster_by} if cluster_by != "none" else {}), exact=exact, rtol=SVD_RTOL)
-        b.fail(clause=clause,
-               witness={"terms": list(tlist), "types": list(types), "contrast": contrast, "cluster_by": cluster_by,
-                        "frame": mf.spec_summary(spec), "cls": cls, "code": code},
-               detail=detail)
+        out.append((clause, {"terms": list(tlist), "types": list(types), "contrast": contrast, "cluster_by": cluster_by,
+                             "frame": mf.spec_summary(spec), "cls": cls, "code": code}, detail))
+    emit_round_robin(b, out, MAX_WITNESS_PER_CLASS)
     for k, n in sorted(totals.items()):
         ctx.notes.append(f"{label}: {k[0]} cls={k[1]}: {n} failing ordered term lists in total")
     if notes:
@@ -322,17 +345,23 @@ def run_bounded(ctx):
     seed = ctx.seed
     # ---- scope 1: <= 3 factors, <= 4 terms, every permutation, intercept on/off, exact arithmetic
     units = []
+    quick4 = set(_type_multisets(3, ("num", "cat2", "cat3"))) | {("num", "cat1", "cat2"), ("cat1", "cat1", "cat3"),
+                                                                 ("num", "num", "cat1"), ("cat1", "cat2", "cat3")}
     for nf in (1, 2, 3):
         for types in _type_multisets(nf):
             for terms in _term_sets(nf, 4):
+                if nf == 3 and len(terms) == 4 and not ctx.thorough and types not in quick4:
+                    continue  # quick tier: 4-term sets on 14 of the 20 type multisets (all 20 in the thorough tier)
                 units.append((types, terms, seed, True, None, "none", False, ("first", "off"), None))
     with ctx.bounded(
         "rank-span-3factors-exact",
         rule="a case = (factor types, ORDERED term list, intercept on/off); non-trivial = the unreduced matrix is rank "
              "deficient; ranks over Q by exact elimination (integer data); failures must repeat on a second data set",
         exhaustive=True,
-        bound="<=3 factors (each numeric or categorical with 1..3 levels, all type multisets), all term sets with <=4 "
-              "terms, every permutation, intercept first/absent; fully crossed data, max(2, 2^#numeric) replicates, "
+        bound="<=3 factors (each numeric or categorical with 1..3 levels, all 20+10+4 type multisets), all term sets with "
+              "<=3 terms on all of them and all 4-term sets on "
+              + ("all of them" if ctx.thorough else "14 of the 20 three-factor multisets (numeric/2/3 levels + 4 with a 1-level factor)")
+              + ", every permutation, intercept first/absent; fully crossed data, max(2, 2^#numeric) replicates, "
               "generic integer values; default treatment coding; factor order inside a term ascending",
     ) as b:
         _scope(ctx, b, units, True, "3factors")
@@ -342,7 +371,8 @@ def run_bounded(ctx):
         # ---- scope 2: variants of scope 1 (exact)
         units = []
         for nf in (2, 3):
-            for types in itertools.product(TYPES, repeat=nf):  # all assignments, not only multisets
+            assignments = _type_multisets(nf) + [tuple(reversed(t)) for t in _type_multisets(nf) if tuple(reversed(t)) != t]
+            for types in assignments:  # sorted and reversed type order (changes which names sort first)
                 for terms in _term_sets(nf, 4):
                     variant = rng.randrange(3)
                     if variant == 0:
@@ -355,8 +385,8 @@ def run_bounded(ctx):
             "rank-span-3factors-variants",
             rule="as above with cluster_by='numerical_factors' / reversed factor order inside terms / intercept written last",
             exhaustive=False,
-            bound="<=3 factors, every type assignment, all term sets <=4 terms, every permutation; one of three option "
-                  "variants per term set (seeded)",
+            bound="2-3 factors, all type multisets in ascending and in descending order, all term sets <=4 terms, every "
+                  "permutation; one of three option variants per term set (seeded)",
         ) as b:
             _scope(ctx, b, units, True, "3factors-variants")
 
@@ -379,27 +409,45 @@ def run_bounded(ctx):
         ) as b:
             _scope(ctx, b, units, False, "contrasts")
 
-        # ---- scope 4: 4 factors
+        # ---- scope 4: 4 factors.  The reduced/full decision depends only on which factors are categorical, so the
+        # kind patterns are enumerated exhaustively (2 levels each); level counts 1 and 3 get sampled orderings.
         units = []
-        type_sets = _type_multisets(4, ("num", "cat2", "cat3")) + [("cat1", "cat2", "cat3", "num"), ("cat1", "cat1", "cat2", "num"),
-                                                                    ("cat1", "cat3", "cat3", "cat3"), ("cat1", "num", "num", "cat2")]
-        for types in type_sets:
+        all_terms = [fs for k in range(1, 5) for fs in itertools.combinations(range(4), k)]
+        for types in (("cat2", "cat2", "cat2", "cat2"), ("cat2", "cat2", "cat2", "num"), ("cat2", "cat2", "num", "num"),
+                      ("cat2", "num", "num", "num")):
             for terms in _term_sets(4, 4):
-                units.append((types, terms, seed, False, None, "none", False, ("first", "off"), 6 if len(terms) == 4 else None))
-            all_terms = [fs for k in range(1, 5) for fs in itertools.combinations(range(4), k)]
+                units.append((types, terms, seed, False, None, "none", False, ("first", "off"), None))
+        with ctx.bounded(
+            "rank-span-4factors-kinds-svd",
+            rule="4 factors, every pattern of categorical(2 levels)/numeric with >= 1 categorical; SVD ranks as above",
+            exhaustive=True,
+            bound="4 factors (cccc, cccn, ccnn, cnnn), all term sets <=4 terms, every permutation, intercept first/absent",
+        ) as b:
+            _scope(ctx, b, units, False, "4factors-kinds")
+
+        units = []
+        for types in (("cat1", "cat2", "cat3", "num"), ("cat1", "cat1", "cat2", "num"), ("cat1", "cat3", "cat3", "cat3"),
+                      ("cat1", "num", "num", "cat2"), ("cat3", "cat3", "cat2", "cat2"), ("cat3", "cat2", "num", "num"),
+                      ("cat3", "cat3", "cat3", "num"), ("num", "cat3", "cat1", "cat2")):
+            for terms in _term_sets(4, 4):
+                units.append((types, terms, seed, False, None, "none", False, ("first", "off"), 2 if len(terms) == 4 else None))
             for _ in range(40):
                 terms = tuple(rng.sample(all_terms, 5))
                 units.append((types, terms, seed, False, None, "none", False, ("first", "off"), 6))
         with ctx.bounded(
-            "rank-span-4factors-svd",
-            rule="4 factors; SVD ranks as above",
+            "rank-span-4factors-levels-svd",
+            rule="4 factors with 1/2/3-level categoricals; SVD ranks as above",
             exhaustive=False,
-            bound="4 factors (numeric / 2 / 3 levels, all multisets, + 4 with 1-level factors), all term sets <=3 terms with "
-                  "every permutation, all 4-term sets with 6 seeded permutations each, 40 seeded 5-term sets per type "
-                  "tuple with 6 permutations each; intercept first/absent",
+            bound="8 type tuples mixing 1, 2, 3 levels and numerics; all term sets <=3 terms with every permutation, all 4-term "
+                  "sets with 2 seeded permutations each, 40 seeded 5-term sets per type tuple with 6 permutations each; "
+                  "intercept first/absent",
         ) as b:
-            _scope(ctx, b, units, False, "4factors")
+            _scope(ctx, b, units, False, "4factors-levels")
 
+    if not ctx.explanation:  # the proofs module normally sets this; keeps the evidence schema-valid on its own
+        ctx.explanation = ("bounded stand-in: model matrices with/without rank reduction for every ordered term list over <=3 "
+                           "(thorough: 4) factors on fully crossed data; independence and equal span decided by exact rank over Q "
+                           "(SVD for non-integer codings)")
     ctx.assume(
         "A-general-position: a fully crossed design with max(2, 2^#numeric) replicates per cell and pairwise distinct "
         "seeded integer values is 'in general position'; guarded by requiring every failure to repeat on a second data set",
